@@ -1,12 +1,17 @@
 ---- MODULE Ledger ----
-EXTENDS Naturals, Sequences, FiniteSets
+(* Smoke model of the wallet ledger of btclib.wallet.RangedWallet (pre-flight only). *)
+EXTENDS Naturals, Sequences
 CONSTANTS B, MaxI
 VARIABLES next, handed
+vars == <<next, handed>>
 Init == next = [b \in B |-> 0] /\ handed = <<>>
+Record(b,i) == IF \E k \in 1..Len(handed): handed[k] = <<b,i>> THEN handed ELSE Append(handed, <<b,i>>)
 Addr(b,i) == /\ next' = [next EXCEPT ![b] = IF i+1 > next[b] THEN i+1 ELSE next[b]]
-             /\ handed' = IF \E k \in 1..Len(handed): handed[k] = <<b,i>> THEN handed ELSE Append(handed, <<b,i>>)
-Next == \E b \in B: \/ \E i \in 0..MaxI: Addr(b,i)
-                   \/ (next[b] <= MaxI /\ Addr(b,next[b]))
+             /\ handed' = Record(b,i)
+NextAddr(b) == /\ next[b] <= MaxI
+               /\ next' = [next EXCEPT ![b] = next[b] + 1]
+               /\ handed' = Record(b, next[b])
+Next == \E b \in B: (\E i \in 0..MaxI: Addr(b,i)) \/ NextAddr(b)
 Inv == \A b \in B: \A k \in 1..Len(handed): handed[k][1] = b => handed[k][2] < next[b]
-Spec == Init /\ [][Next]_<<next,handed>>
+Spec == Init /\ [][Next]_vars
 ====
